@@ -186,7 +186,7 @@ func runC19(c *sim.Ctx, t *testing.T) {
 			}
 		}
 		// faults
-		st.fault = []string{"none", "none", "dup", "drop", "dup+drop", "reorder", "late", "noise", "forbidden", "guard-reject", "reject-all", "forbidden-in-required", "exit-early", "forbidden-seen-before", "forbidden-guarded"}[c.Intn(15, "fault")]
+		st.fault = []string{"none", "none", "dup", "drop", "dup+drop", "reorder", "late", "noise", "forbidden", "guard-reject", "reject-all", "forbidden-in-required", "exit-early", "forbidden-seen-before", "forbidden-guarded", "forbidden-on-guard-error"}[c.Intn(16, "fault")]
 		req := len(st.lines)
 		switch st.fault {
 		case "dup":
@@ -269,6 +269,32 @@ func runC19(c *sim.Ctx, t *testing.T) {
 			hi := xLine{text: pad(fmt.Sprintf(`{"bad":"s%d","v":2}`, i), "bigforbidden"), delay: 5 * time.Millisecond, why: "forbidden"}
 			k := c.Intn(len(st.lines), "forbiddenpos")
 			st.lines = append(st.lines[:k], append([]xLine{lo, hi}, st.lines[k:]...)...)
+		case "forbidden-on-guard-error":
+			// one line is a candidate for a guarded expected output - whose guard chokes on it - and
+			// matches the forbidden pattern (listed after that output) as well
+			var g *xOutput
+			for j := range st.outputs {
+				if st.outputs[j].guard == "throwlow" {
+					g = &st.outputs[j]
+					break
+				}
+			}
+			if g == nil {
+				st.fault = "none"
+				break
+			}
+			hasInv := false
+			for _, o := range st.outputs {
+				if o.inverted {
+					hasInv = true
+				}
+			}
+			if !hasInv {
+				st.outputs = append(st.outputs, xOutput{key: fmt.Sprintf("s%d", i), inverted: true})
+			}
+			both := xLine{text: fmt.Sprintf(`{"k":%q,"v":1,"bad":"s%d"}`, g.key, i), delay: 5 * time.Millisecond, why: "candidate for " + g.key + " (its guard fails on it) and forbidden"}
+			k := c.Intn(len(st.lines), "forbiddenpos")
+			st.lines = append(st.lines[:k], append([]xLine{both}, st.lines[k:]...)...)
 		case "forbidden-in-required":
 			// the message that completes the step also matches the forbidden pattern (listed after the expected ones)
 			hasInv := false
@@ -322,6 +348,8 @@ func runC19(c *sim.Ctx, t *testing.T) {
 
 	// ---- the session
 	sess := &Session{DefaultTimeout: xDefaultTimeout, Interpreters: core.InterpretersMap{"ecmascript": ecmascript.NewInterpreter()}}
+	// as in session files written in YAML: every pattern is given as JSON text
+	sess.ParsePatterns = c.Chance(1, 4, "parsepatterns")
 	for i, st := range steps {
 		iop := IO{Inputs: []interface{}{fmt.Sprintf(`{"go":%d}`, i)}, Timeout: st.timeout}
 		switch c.Intn(4, "waits") {
@@ -353,7 +381,12 @@ func runC19(c *sim.Ctx, t *testing.T) {
 			if o.multi > 0 {
 				pat["tags"] = []interface{}{"?t"}
 			}
-			iop.OutputSet = append(iop.OutputSet, Output{Pattern: pat, GuardSource: xGuardSrc(o.guard, o.bang), Inverted: o.inverted})
+			var given interface{} = pat
+			if sess.ParsePatterns {
+				js, _ := json.Marshal(pat)
+				given = string(js)
+			}
+			iop.OutputSet = append(iop.OutputSet, Output{Pattern: given, GuardSource: xGuardSrc(o.guard, o.bang), Inverted: o.inverted})
 		}
 		sess.IOs = append(sess.IOs, iop)
 	}
@@ -380,7 +413,10 @@ func runC19(c *sim.Ctx, t *testing.T) {
 	}
 	c.Path = shape + fmt.Sprint(runErr == nil, xCancelAt)
 	c.Trivial = false
-	c.Sample = map[string]interface{}{"steps": shape, "runs_of_the_session": nruns, "tool_error": errText(runErr)}
+	if sess.ParsePatterns {
+		c.Count("sessions_with_patterns_as_json_text")
+	}
+	c.Sample = map[string]interface{}{"steps": shape, "runs_of_the_session": nruns, "tool_error": errText(runErr), "patterns_as_text": sess.ParsePatterns}
 }
 
 func errText(err error) string {
